@@ -99,6 +99,12 @@ Theorem C05_file_dir_wiring : forall orc vn obj field s is_dir e, stat_lookup or
   violated (rFile orc vn obj field (VStr s)) = is_dir /\ violated (rDir orc vn obj field (VStr s)) = negb is_dir.
 Proof. exact file_dir_rules. Qed.
 Print Assumptions C05_file_dir_wiring.
+(* a path os.Stat cannot read (missing, dangling link) violates file and dir alike, with the rule's own message *)
+Theorem C05_file_dir_missing : forall orc vn obj field s, stat_lookup orc s = None ->
+  rFile orc vn obj field (VStr s) = [CValid obj field s (body_of (pk_msg vn) (s2b "stat"))] /\
+  rDir orc vn obj field (VStr s) = [CValid obj field s (body_of (pk_msg vn) (s2b "stat"))].
+Proof. exact file_dir_missing. Qed.
+Print Assumptions C05_file_dir_missing.
 Theorem C05_date_wiring : forall orc vn obj field s,
   violated (rYear orc vn obj field (VStr s)) = negb (time_ok orc (s2b "2006") s) /\
   violated (rYear2Month orc vn obj field (VStr s)) = negb (time_ok orc (s2b "2006" ++ date_split vn ++ s2b "01") s) /\
